@@ -70,7 +70,10 @@ def sysReachableFrom (s : St) (id : Nat) : List Page :=
 durable system tree likewise -/
 def pinOk (s : St) : Bool :=
   s.pins.all (fun π => π.pages.all (fun p => (reachableFrom s π.id).contains p)) &&
-  s.dsys.all (fun p => (sysReachableFrom s s.dur).contains p)
+  s.dsys.all (fun p => (sysReachableFrom s s.dur).contains p) &&
+  -- the durable pin is the snapshot of the last durable commit; no pin is from the future
+  s.pins.all (fun π => π.kind != .durable || π.id == s.dur) &&
+  s.pins.all (fun π => π.id ≤ s.id)
 
 /-- same pin in both states -/
 def Pin.same (a b : Pin) : Bool := a.id == b.id && a.kind == b.kind && a.pages == b.pages
@@ -116,7 +119,25 @@ transaction ids and their page moves are rolled back: only the per-state conditi
 root) and the monotonicity of the durable transaction id are required. -/
 def stepOk (crash : Bool) (s s' : St) : Bool :=
   if crash then s.dur ≤ s'.dur
-  else s.alloc.all (moveOk s s') && s.id ≤ s'.id && s.dur ≤ s'.dur
+  else s.alloc.all (moveOk s s') && s.id ≤ s'.id && s.dur ≤ s'.dur &&
+    -- the durable system tree is fixed for as long as the durable commit does not advance
+    (s.dur != s'.dur || s.dsys == s'.dsys)
+
+/-- same elements (the lists are duplicate-free under `ownOk`) -/
+def sameSet (a b : List Page) : Bool := a.all (fun p => b.contains p) && b.all (fun p => a.contains p)
+
+def sameRecords (a b : List (Nat × List Page)) : Bool :=
+  a.all (fun r => b.any (fun r' => r.1 == r'.1 && sameSet r.2 r'.2)) &&
+  b.all (fun r => a.any (fun r' => r.1 == r'.1 && sameSet r.2 r'.2))
+
+/-- An abandoned write transaction (abort, drop, refused commit of a poisoned transaction)
+leaves no trace in the page accounting: the same pages are allocated, with the same owners, the
+same pending-free records and the same committed and durable transaction ids. (Only the
+transaction-id counter, which is not part of `St`, may have advanced.) -/
+def abortOk (s s' : St) : Bool :=
+  sameSet s.alloc s'.alloc && sameSet s.data s'.data && sameSet s.sys s'.sys &&
+  sameRecords s.dfreed s'.dfreed && sameRecords s.sfreed s'.sfreed &&
+  s.id == s'.id && s.dur == s'.dur && sameSet s.dsys s'.dsys
 
 /-- `accept`: every state is well accounted and every transition is legal; the trace is a list
 of (arrived-by-crash, state) -/
